@@ -496,6 +496,22 @@ func TestC03(t *testing.T) {
 	if thorough() {
 		maxRank = 5
 	}
+	// every ordered pair of permutations: a lazy transpose on top of a pending one
+	for rank := 2; rank <= 3; rank++ {
+		rank := rank
+		cell(t, "C03", "C03.allperms", fmt.Sprintf("allpairs/T;T/rank%d", rank), nCases(3, 20), func(rt *rapid.T) Case {
+			shape := make([]int, rank)
+			for i := range shape {
+				shape[i] = rapid.IntRange(2, 3).Draw(rt, "dim")
+			}
+			if rapid.Bool().Draw(rt, "cube") {
+				for i := range shape {
+					shape[i] = 2
+				}
+			}
+			return &C03AllPerms{DT: rapid.SampledFrom([]string{"int16", "float64", "string"}).Draw(rt, "dt"), Shape: shape, Op: "T;T", L: Layout{Root: "rm"}}
+		})
+	}
 	for _, op := range []string{"T", "SafeT", "pkgTranspose", "T+Transpose"} {
 		for rank := 2; rank <= maxRank; rank++ {
 			op, rank := op, rank
@@ -520,7 +536,7 @@ func TestC03(t *testing.T) {
 	}
 }
 
-// C03AllPerms runs one operation with every permutation of the axes.
+// C03AllPerms runs one operation with every permutation of the axes ("T;T": every ordered pair).
 type C03AllPerms struct {
 	DT    string `json:"dt"`
 	Shape []int  `json:"shape"`
@@ -539,6 +555,22 @@ func (c *C03AllPerms) NTKey() string {
 
 func (c *C03AllPerms) Run() string {
 	n := 0
+	if c.Op == "T;T" {
+		perms := allPermsCached(len(c.Shape))
+		for _, p := range perms {
+			for _, q := range perms {
+				sub := &C03Case{DT: c.DT, Shape: c.Shape, L: c.L, Prog: []C03Step{{Op: "T", Perm: p}, {Op: "T", Perm: q}, {Op: "UT"}}}
+				resetLib()
+				rec.Eval()
+				if msg := sub.Run(); msg != "" && msg != inconclusive {
+					return msg
+				}
+				n++
+			}
+		}
+		rec.ClassN("permutation-pairs", n)
+		return ""
+	}
 	for _, p := range allPermsCached(len(c.Shape)) {
 		prog := []C03Step{{Op: c.Op, Perm: p}}
 		if c.Op == "T+Transpose" {
